@@ -105,7 +105,9 @@ ReqOf(ln) == [cmd |-> ln.q.cmd, name |-> ln.q.name, lname |-> ln.q.lname, hasnam
 Tk(ms) == (ms + 50) \div 100
 
 \* consume line l+1 with model step t
-Consume(t) == /\ LineOK(t, Tr[l + 1]) /\ s' = t /\ l' = l + 1 /\ tid' = tid
+\* (a worker is born when its spawn line says so: after a blocking reap that is off the model's grid by some ms)
+Born(t, ln) == IF ln.k = "spawn" /\ ln.p \in 1..Len(t.k) THEN [t EXCEPT !.k[ln.p].born = ln.t] ELSE t
+Consume(t) == /\ LineOK(t, Tr[l + 1]) /\ s' = Born(t, Tr[l + 1]) /\ l' = l + 1 /\ tid' = tid
 Silent(t) == /\ t.out = NoLine /\ s' = t /\ l' = l /\ tid' = tid
 
 Next ==
